@@ -307,13 +307,14 @@ CHECKS["C15"] = {
     "level": "exploration",
     "shards": {"quick": 16, "thorough": 32},
     "budget": {"quick": 240, "thorough": 600},
-    "rule": "sixteen workloads (expression-sized arrays, bit-fields+enums incl. dumping, unions with member assignment, "
+    "rule": "eighteen workloads (expression-sized arrays, bit-fields+enums incl. dumping, unions with member assignment, "
             "dereferenced pointers, nested arrays of structures with null-terminated wchar, LEB128 parse+dump, "
             "wchar/multi-dimensional/expression tails, null-terminated arrays of structures, unknown enum/flag values "
             "(pseudo-members created while threads interleave), parse + construct-and-dump + default construction, "
             "unary operators in lengths, unions written through a member that is not the first, long NUL-terminated "
             "strings in place and behind a pointer, two-dimensional arrays with a run-time inner dimension, NUL-terminated "
-            "wide strings with surrogate pairs, constructed instances changed in place below the top level) x "
+            "wide strings with surrogate pairs, constructed instances changed in place below the top level, several threads "
+            "writing multi-byte LEB128 values, arrays sized by a field of an anonymous member) x "
             "{compiled, interpreted}; 2-3 threads run jobs on independent streams with shared type objects under a "
             "deterministic scheduler that makes every source line of the library (thorough: every bytecode instruction "
             "of expression.py/bitbuffer.py) a yield point; ALL single-preemption schedules (both starting threads) are "
@@ -332,7 +333,8 @@ CHECKS["C15"] = {
                        "workload:exprneg:interpreted", "workload:unionwrite:interpreted", "workload:longstr:compiled",
                        "workload:longstr:interpreted", "workload:grid:compiled", "workload:grid:interpreted",
                        "workload:wsurrogate:compiled", "workload:wsurrogate:interpreted", "workload:construct:compiled",
-                       "workload:construct:interpreted"],
+                       "workload:construct:interpreted", "workload:lebdump:compiled", "workload:lebdump:interpreted",
+                       "workload:anonlen:compiled", "workload:anonlen:interpreted"],
     "assumptions": ASSUME_COMMON + ["context switches are modelled at source-line granularity (CPython can switch "
                                     "between bytecodes; thorough adds instruction granularity for the evaluator and the "
                                     "bit buffer)"],
@@ -512,7 +514,7 @@ MANIFEST_TEXT = {
     },
     "C15": {
         "text": "Systematic schedule exploration of real threads running the real library: a sys.monitoring-based "
-                "deterministic scheduler turns every library source line into a yield point; for sixteen workloads in both "
+                "deterministic scheduler turns every library source line into a yield point; for eighteen workloads in both "
                 "reader modes every single-preemption schedule is executed (exhaustive for that bound) on warm and on "
                 "cold (freshly loaded) types, plus random "
                 "multi-preemption schedules with 2-3 threads (and all two-preemption schedules of the small workloads "
